@@ -1,10 +1,12 @@
 #!/usr/bin/env python3
-"""prints the seeds table of DESIGN.md section 10.2 from selftest/matrix_last.json"""
-import json, os
+"""gen_seed_table.py [--inplace]: the seeds table of DESIGN.md section 10.2 from
+selftest/matrix_last.json; --inplace rewrites the region between the SEEDTABLE markers"""
+import json, os, sys
 ROOT = os.path.dirname(os.path.dirname(os.path.abspath(__file__)))
 m = json.load(open(os.path.join(ROOT, "selftest", "matrix_last.json")))
-print("| seed | change (one line) | rules of the target property that report it | other properties whose checks also report |")
-print("|---|---|---|---|")
+out = []
+out.append("| seed | round | change (one line) | rules of the target property that report it | other properties whose checks also report |")
+out.append("|---|---|---|---|---|")
 for d in sorted(m):
     meta = json.load(open(os.path.join(ROOT, "seeded", d, "meta.json")))
     pid = d.split("-")[0]
@@ -13,4 +15,15 @@ for d in sorted(m):
     summ = (meta.get("summary") or "").replace("\n", " ").replace("|", "/")
     if len(summ) > 150:
         summ = summ[:147] + "..."
-    print("| %s | %s | %s | %s |" % (d, summ, ", ".join(rules) or "**MISSED**", ", ".join(others) or "-"))
+    out.append("| %s | %s | %s | %s | %s |" % (d, meta.get("round", "?"), summ, ", ".join(rules) or "**not reported**", ", ".join(others) or "-"))
+txt = "\n".join(out)
+if "--inplace" in sys.argv:
+    p = os.path.join(ROOT, "DESIGN.md")
+    s = open(p).read()
+    a, b = "<!-- SEEDTABLE:BEGIN -->", "<!-- SEEDTABLE:END -->"
+    i, j = s.index(a) + len(a), s.index(b)
+    s = s[:i] + "\n" + txt + "\n" + s[j:]
+    open(p, "w").write(s)
+    print("table rewritten: %d seeds" % len(m))
+else:
+    print(txt)
